@@ -5,6 +5,14 @@ import subprocess
 from . import env
 
 
+def dec_float(x):
+    """decode a float payload of the driver: number, [mantissa, exponent] (exact), or 'nan'/'inf'/'-inf'"""
+    import math
+    if isinstance(x, list):
+        return math.ldexp(x[0], x[1])
+    return float(x)
+
+
 class DriverError(Exception):
     pass
 
